@@ -137,6 +137,10 @@ def run(ctx, F):
             ctx.judge(f.cfg.dominates(s.bb, a.bb) and a.bb != s.bb, "C11.open-after-stop", "root packet add at line %s" % a.line,
                       expected="packets are added after stop_all_mutators returned", found="not dominated by the stop call",
                       where=where(f, a.line), key="C11.open-after-stop|add")
+    # the pending-request flag is dropped only once every mutator has stopped: a mutator still running between the start of
+    # StopMutators and the last yield could otherwise file a second request for the collection that is already under way
+    check_callers(ctx, F, "C11.open-after-stop", "util::heap::gc_trigger::GCTrigger::clear_request",
+                  {"scheduler::scheduler::GCWorkScheduler::notify_mutators_paused": "called after stop_all_mutators returned (previous instances of this rule)"})
     # the only opener of the first STW stage is notify_mutators_paused: see C15.open-callers
 
     # ---- C11.roots-once
@@ -164,6 +168,17 @@ def run(ctx, F):
             stage = [x for x in tree_calls(st, name="index")]
             ctx.judge("Prepare" in show(st), "C11.roots-once", "ScanMutatorRoots stage", expected="added to a STW stage (Prepare)",
                       found=show(st), where=where(clo, c.line), key="C11.roots-once|stage")
+    # first root round: the per-collection counter of scanned stacks is reset before the first ScanMutatorRoots packet can exist
+    for s in stop_sites:
+        f = s.fn
+        prep = live_calls(f, name="prepare_for_stack_scanning")
+        ctx.judge(bool(prep) and any(f.cfg.dominates(p.bb, s.bb) for p in prep), "C11.roots-once", "the scanned-stack counter is reset before mutators are visited (%s)" % short(f.q),
+                  expected="GlobalState::prepare_for_stack_scanning dominates stop_all_mutators (it is the only per-collection reset of scanned_stacks)", found="prepare sites=%s" % [p.line for p in prep],
+                  where=where(f, s.line), key="C11.roots-once|first-reset|" + f.q)
+    pf = F.fn("global_state::GlobalState::prepare_for_stack_scanning")
+    st0 = [c for c in live_calls(pf, name="store") if show(strip(pf.flow.arg_tree(c, 0))).endswith(".scanned_stacks") and const_arg(pf.flow.arg_tree(c, 1)) == 0]
+    ctx.judge(len(st0) == 1 and pf.cfg.must_pass([st0[0].bb]), "C11.roots-once", "prepare_for_stack_scanning zeroes the scanned-stack counter", expected="scanned_stacks.store(0) on every path", found=str(len(st0)), where=where(pf),
+              key="C11.roots-once|reset-value")
     check_callers(ctx, F, "C11.roots-once", SCAN + "scan_roots_in_mutator_thread",
                   {"<scheduler::gc_work::ScanMutatorRoots as scheduler::work::GCWork>::do_work": "the per-mutator root packet"})
     smr = F.fn("<scheduler::gc_work::ScanMutatorRoots as scheduler::work::GCWork>::do_work")
